@@ -18,6 +18,9 @@ CHECKS = {
  "C17": dict(design="3/C17", technique="property-based testing (Hypothesis) of algebraic invariants on real SurfaceHoppingDynamics objects: convergence order against a refined reference, alone-vs-batch differentials, history-vs-fresh-object differentials, energy bookkeeping of the real hop update",
              text="Six generated sub-checks drive the repository's _propagate_electronic, _attempt_hop, _rescale_velocity_along_nac, _detect_crossings and _after_electronic_update: 4th-order convergence of the amplitudes and unitarity of the converged limit; hop probabilities in [0,1], row sum <= 1, equal alone and in a batch (incl. batches with one member on a coupling spike); velocity adjustment parallel to d/m, exact energy conservation, smaller root, frustrated hops untouched; relabelling is a permutation; crossing detection independent of earlier events on the same object; batch update conserves each member's own energy and equals its single-trajectory result. Exploration, ~40k cases per quick run.",
              note="Objects are built without electronic structure the way tests/test_nonadiabatic.py builds them (private attributes); NAC vectors and forces come from the harness through the same hooks the repository's TullyFSSH overrides. Full SCF-driven FSSH histories are not part of this check. The >=3-cycle relabelling defect is a recorded known finding."),
+ "C18": dict(design="3/C18", technique="mutation-based property testing (Hypothesis): one documented precondition violated per generated case (negative side) and boundary-stretching of valid inputs (positive side)",
+             text="Negative side: 15 mutation operators, one per precondition enumerated in the property statement, applied to generated valid cases over 4 methods; oracle = an exception is raised and no result attribute (Etot, force, dm, q, Hf) of the molecule has been set. Positive side: templates scaled to 0.5-30 A, charges up to +-4, table-edge elements, three solvers; oracle = all results finite or the non-convergence flag set. Exploration: ~3000 cases per quick run.",
+             note="Any Exception subclass counts as a loud rejection. Operators for preconditions the statement does not enumerate (element outside the table, active state beyond n_states) were removed after they turned out to be oracle over-reach."),
 }
 NOT_APPLICABLE = []
 def main():
